@@ -85,6 +85,8 @@ func (fc *FnCtx) doCall(fr *Frame, st *State, instr ssa.Instruction, c *ssa.Call
 			if i := strings.Index(name, "["); i >= 0 {
 				name = name[:i]
 			}
+		} else if bi, ok := c.Value.(*ssa.Builtin); ok {
+			name = bi.Name() // close, delete, ...
 		} else if u, ok := c.Value.(*ssa.UnOp); ok {
 			// call through a function-typed local variable / struct field: named by the variable / field
 			if al, ok := u.X.(*ssa.Alloc); ok {
@@ -106,6 +108,10 @@ func (fc *FnCtx) doCall(fr *Frame, st *State, instr ssa.Instruction, c *ssa.Call
 				if b.Callee != name && !(full != "" && strings.Contains(b.Callee, ")") && strings.HasSuffix(full, "."+b.Callee)) {
 					continue
 				}
+				if fc.beforeHits == nil {
+					fc.beforeHits = map[int]bool{}
+				}
+				fc.beforeHits[i] = true
 				env := fc.topEnv(fr, fr.spec)
 				// the call's actual arguments are visible as arg0, arg1, ...
 				for ai, av := range args {
@@ -713,6 +719,13 @@ func (fc *FnCtx) doInvoke(fr *Frame, st *State, instr ssa.Instruction, c *ssa.Ca
 		h, ok := recv.(Term)
 		if !ok {
 			return havocRes("hm")
+		}
+		// zerosafe: a zero header of a pointer-typed implementation is the nil pointer, on which every
+		// method other than IsZero dereferences nil. Where the verified function declares it, each such
+		// call is an obligation that the receiver is known to be non-zero.
+		if method != "IsZero" && method != "New" && fc.topFrame != nil && fc.topFrame.spec != nil && fc.topFrame.spec.ZeroSafe {
+			fc.obligeSafe(st, "zerorecv", method, tNot(app(SBool, "isZero", h)), instr.Pos(), nil,
+				"header."+method+"() is only invoked on a header known to be non-zero (a zero pointer-typed header is nil)")
 		}
 		switch method {
 		case "Height":
